@@ -32,7 +32,7 @@ def safe_impl(mod, case):
     """run the implementation on one case under a wall-clock limit: a call that does not return is an
     observable outcome ('hang'), reported as a failing input - never as a stuck check"""
     import signal
-    limit = getattr(mod, 'CASE_TIMEOUT', 20)
+    limit = getattr(mod, "CASE_TIMEOUT", 60)
     use_alarm = hasattr(signal, 'setitimer') and limit
     if use_alarm:
         old = signal.signal(signal.SIGALRM, _alarm)
